@@ -104,16 +104,19 @@ Plan = List[Tuple[Ratio, Path, Exponent]]
 
 @functools.lru_cache(maxsize=None)
 def _plan_conversion(start: Unit, end: Unit) -> Plan:
+    # the steps of a path may add offsets (temperature scales), which are defined
+    # between unprefixed units, so the end unit's prefix is applied as the last step
     unprefixed = end.quantify()
-    plan: RoughPlan = [(1 / unprefixed.magnitude, One, One, 1)]
+    apply_end_prefix: RoughPlan = [(1 / unprefixed.magnitude, One, One, 1)]
 
     start_factors = _splat(start)
     end_factors = _splat(end)
 
     direct_path = _find_path(start, end)
     if direct_path:
-        return _inline_paths(plan) + [(1, direct_path, 1)]
+        return [(1, direct_path, 1)] + _inline_paths(apply_end_prefix)
 
+    plan: RoughPlan = []
     plan += [
         (ratio, end, start, exponent)
         for ratio, start, end, exponent in _replace_factors(start_factors)
@@ -135,7 +138,7 @@ def _plan_conversion(start: Unit, end: Unit) -> Plan:
     assert not start_factors
     assert not end_factors
 
-    return _inline_paths(plan)
+    return _inline_paths(plan + apply_end_prefix)
 
 
 def _inline_paths(plan: List[Tuple[Ratio, Unit, Unit, Exponent]]) -> Plan:
